@@ -138,6 +138,7 @@ class World:
         # attribution only (not hashed)
         self.g_votes = {}  # (term, voter) -> set of candidates granted
         self.viol = []
+        self.overtook = False
         self.nt = "#NT0#"
         self.oc = "#OC0#"
         if self.p.get("start", True):
@@ -199,6 +200,8 @@ class World:
     def _take_msg(self, etype, fz):
         for i, rec in enumerate(self.msgs):
             if rec[2] == etype and rec[1][1] == fz:
+                if any(o[2] == etype and o[3][:2] == rec[3][:2] for o in self.msgs[:i]):
+                    self.overtook = True  # an older message of this type on this link is still in flight
                 return self.msgs.pop(i)[0]
         raise KeyError(f"no in-flight message {etype} {fz}")
 
@@ -364,7 +367,8 @@ class World:
         cands = sum(1 for nm in self.names if nodes[nm].stats.elections_started > 0)
         logs = {tuple(self._entry(nodes[nm], i) for i in range(1, nodes[nm].log.last_index + 1)) for nm in self.names}
         diverge = any(a[:min(len(a), len(b))] != b[:min(len(a), len(b))] for a in logs for b in logs)
-        nontriv = cands >= 2 or diverge or self.used["drops"] or self.used["crashes"] or len(self.g_leader) >= 2
+        nontriv = (cands >= 2 or diverge or self.used["drops"] or self.used["crashes"] or len(self.g_leader) >= 2
+                   or self.overtook)
         self.nt = "#NT1#" if nontriv else "#NT0#"
         self.oc = "#OC" + digest((sorted(self.g_leader.items()),
                                   sorted((i, g[1]) for i, g in self.g_commit.items()),
@@ -459,6 +463,9 @@ def run_script(w, steps):
     for s in steps:
         if s[0] == "msg":  # ('msg', type, src, dst)
             labs = [_find(w, "Raft" + s[1], s[2], s[3])]
+        elif s[0] == "dropmsg":  # ('dropmsg', type, src, dst)
+            lab = _find(w, "Raft" + s[1], s[2], s[3])
+            labs = [("drop",) + lab[1:]]
         elif s[0] == "drain":  # deliver everything in flight, canonical order, until quiescent
             labs = None
             while w.msgs:
@@ -494,6 +501,18 @@ WORLDS = {
                                            ("msg", "AppendEntriesResponse", "n1", "n0"),
                                            ("drop",) ],
                         timeouts=2, max_term=3, submits=1, hbs=1, max_msgs=6),
+    # vote rule: n0 leads term 1, c0 is everywhere, c1 is on n0+n1 and committed at n0; n2 is one entry behind
+    "behind": dict(prefix=ELECT_N0 + [("submit", "n0"), ("hb", "n0"), ("drain",), ("hb", "n0"), ("drain",),
+                                      ("submit", "n0"), ("hb", "n0"), ("msg", "AppendEntries", "n0", "n1"),
+                                      ("msg", "AppendEntriesResponse", "n1", "n0"), ("drop",)],
+                   timeouts=2, max_term=3, hbs=1, max_msgs=6),
+    # commit rule (Raft paper figure 8 with three nodes): n0 led term 1 and holds c0 alone, n2 leads term 2 and
+    # holds c1 alone, n1 voted for both and holds nothing; n2's first AppendEntries to n0 is still in flight
+    "fig8": dict(prefix=[("timeout", "n0"), ("msg", "RequestVote", "n0", "n1"), ("msg", "VoteResponse", "n1", "n0"),
+                         ("submit", "n0"), ("drop",), ("timeout", "n2"), ("drop",), ("timeout", "n2"),
+                         ("msg", "RequestVote", "n2", "n1"), ("msg", "VoteResponse", "n1", "n2"), ("submit", "n2"),
+                         ("dropmsg", "RequestVote", "n2", "n0"), ("dropmsg", "AppendEntries", "n2", "n1")],
+                 timeouts=2, max_term=4, hbs=0, max_msgs=5),
     # crash / restart of any node anywhere during replication and during a leader change
     "crash-repl": dict(prefix=ELECT_N0, submits=1, hbs=2, crashes=1, timeouts=1, max_term=2, max_msgs=5),
     "crash-change": dict(prefix=ELECT_N0 + [("submit", "n0")], timeouts=2, max_term=3, hbs=1, crashes=1, max_msgs=4),
@@ -582,3 +601,311 @@ def _short(lab):
         rest = {k: v for k, v in md.items() if k not in ("source", "destination", "candidate_id", "from", "leader_id")}
         return f"{lab[0]} {lab[1][4:]} {md.get('source')}->{md.get('destination')} {rest}"
     return " ".join(str(x) for x in lab)
+
+
+# ---------------------------------------------------------------------------
+# E2 — liveness clause on the real Simulation + Network
+# ---------------------------------------------------------------------------
+from happysimulator.core.entity import Entity  # noqa: E402
+
+LIVE = dict(hb=0.25, tmin=1.0, tmax=2.0, menu=(0.001, 0.005, 0.02), t_est=2.5, gaps=(0.0, 0.1, 0.25), horizon_hbs=4,
+            uniform=(0.0, 0.5, 1.0))
+
+
+import contextlib  # noqa: E402
+
+
+@contextlib.contextmanager
+def own_uniform(chooser, fracs):
+    """Own ``random.uniform`` (the election-timeout draw).  Every draw may take any fraction of
+    the span from ``fracs``; the DEFAULT answer of the j-th draw is fracs[j % len] so that the
+    all-default execution has three different first timeouts (an ordinary election), and a
+    simultaneous time-out is one deviation away."""
+    saved = _random.uniform
+    n = [0]
+
+    def uniform(a, b):
+        j = n[0]
+        n[0] += 1
+        menu = fracs[j % len(fracs):] + fracs[: j % len(fracs)]
+        return a + (b - a) * menu[chooser.choose(len(menu), "uniform")]
+
+    _random.uniform = uniform
+    try:
+        yield
+    finally:
+        _random.uniform = saved
+
+
+class LiveDriver(Entity):
+    """Client + observer.  At t_est it checks the premise (a single established leader), then
+    submits k commands to it at chooser-picked gaps and looks at every node at the horizon."""
+
+    def __init__(self, nodes, sms, chooser, k, cfg):
+        super().__init__("client")
+        self.nodes, self.sms, self.chooser, self.k, self.cfg = nodes, sms, chooser, k, cfg
+        self.outcome = "not-run"
+        self.leader = None
+        self.cmds = []
+        self.futs = []
+        self.final = None
+        self.log = []
+
+    def established(self):
+        leaders = [n for n in self.nodes if n.is_leader]
+        if len(leaders) != 1:
+            return None
+        ld = leaders[0]
+        for n in self.nodes:
+            if n.current_term != ld.current_term:
+                return None
+            if n is not ld and (n.state != RaftState.FOLLOWER or n.current_leader != ld.name):
+                return None
+        return ld
+
+    def handle_event(self, event):
+        et = event.event_type
+        now = self.now
+        if et == "establish":
+            ld = self.established()
+            self.log.append((now.nanoseconds, "establish", ld.name if ld else None,
+                             [(n.name, n.state.name, n.current_term) for n in self.nodes]))
+            if ld is None:
+                self.outcome = "no-established-leader"
+                return None
+            self.leader = ld
+            self.outcome = "established"
+            t = now
+            evs = []
+            for i in range(self.k):
+                t = t + self.chooser.pick(self.cfg["gaps"], "gap")
+                evs.append(Event(time=t, event_type="submit", target=self))
+            evs.append(Event(time=t + self.cfg["horizon_hbs"] * self.cfg["hb"], event_type="check", target=self))
+            return evs
+        if et == "submit":
+            if self.established() is not self.leader:
+                self.outcome = "leader-lost-before-submit"  # premise gone: no verdict
+                self.log.append((now.nanoseconds, "submit-skipped", None, None))
+                return None
+            cmd = f"c{len(self.cmds)}"
+            self.cmds.append(cmd)
+            self.futs.append(self.leader.submit(cmd))
+            self.log.append((now.nanoseconds, "submit", self.leader.name, cmd))
+            return None
+        if et == "check":
+            self.final = {n.name: list(self.sms[n.name].applied) for n in self.nodes}
+            self.log.append((now.nanoseconds, "check", None, self.final))
+            return None
+        return None
+
+
+def live_run(chooser, k, cfg=LIVE, trace=None):
+    """One complete execution on the real engine.  Returns (outcome, violations, observation)."""
+    holder = Holder()
+    holder.chooser = chooser
+    net = Network(name="net")
+    names = ["n0", "n1", "n2"]
+    sms = {nm: RecSM() for nm in names}
+    nodes = [RaftNode(name=nm, network=net, state_machine=sms[nm], election_timeout_min=cfg["tmin"],
+                      election_timeout_max=cfg["tmax"], heartbeat_interval=cfg["hb"]) for nm in names]
+    for nd in nodes:
+        nd.set_peers(nodes)
+    for a, b in itertools.combinations(nodes, 2):
+        net.add_bidirectional_link(a, b, NetworkLink(name=f"l_{a.name}_{b.name}",
+                                                     latency=ChoiceLatency(list(cfg["menu"]), holder, "lat")))
+    drv = LiveDriver(nodes, sms, chooser, k, cfg)
+    end = cfg["t_est"] + k * max(cfg["gaps"]) + cfg["horizon_hbs"] * cfg["hb"] + 0.5
+    with own_uniform(chooser, list(cfg["uniform"])):
+        sim = Simulation(entities=[net, *nodes, drv], end_time=Instant.from_seconds(end))
+        for nd in nodes:
+            for ev in nd.start():
+                sim.schedule(ev)
+        sim.schedule(Event(time=Instant.from_seconds(cfg["t_est"]), event_type="establish", target=drv))
+        hook = None
+        if trace is not None:
+            def hook(ev):
+                if ev.event_type.startswith("Raft") and isinstance(ev.target, RaftNode):
+                    md = ev.context.get("metadata", {})
+                    trace.append(f"    t={ev.time.nanoseconds / 1e6:9.3f}ms {ev.event_type[4:]:22s} -> {ev.target.name} "
+                                 f"{ {k_: v for k_, v in md.items() if k_ not in ('destination',)} }")
+        info = run_guarded(sim, max_events=20000, storm=2000, on_event=hook)
+    viol = []
+    if info["outcome"] != "done":
+        viol.append((f"{COMP}/liveness/simulation-{info['outcome']}",
+                     f"fault-free run did not finish within the event horizon: {info}"))
+    elif drv.outcome == "established" and drv.final is not None and len(drv.cmds) == k:
+        for nm in names:
+            got = drv.final[nm]
+            if got != drv.cmds:
+                shape = ("applied-out-of-submission-order" if sorted(got) == sorted(drv.cmds) or
+                         any(c not in drv.cmds for c in got) or got != drv.cmds[:len(got)]
+                         else "command-not-applied-by-every-node")
+                viol.append((f"{COMP}/liveness/{shape}",
+                             f"fault-free network, delays <= {max(cfg['menu']) * 1e3:.0f} ms, leader {drv.leader.name} "
+                             f"established at {cfg['t_est']} s; submitted {drv.cmds} to it; "
+                             f"{cfg['horizon_hbs']} heartbeat intervals after the last submit {nm} has applied {got}"))
+                break
+        for cmd, fut in zip(drv.cmds, drv.futs):
+            if fut.is_resolved:
+                val = fut.value
+                idx = val[0] if isinstance(val, (tuple, list)) and val else val
+                e = drv.leader.log.get(idx) if isinstance(idx, int) else None
+                if e is None or e.command != cmd or idx > drv.leader.log.commit_index:
+                    viol.append((f"{COMP}/submit-future/resolved-by-other-command",
+                                 f"future of submit({cmd!r}) resolved with {val!r}; entry there: {e!r}"))
+    obs = (drv.outcome, drv.leader.name if drv.leader else None, tuple(drv.cmds),
+           tuple(sorted((nm, tuple(v)) for nm, v in (drv.final or {}).items())),
+           tuple(f.is_resolved and freeze(f.value) for f in drv.futs),
+           tuple((n.name, n.state.name, n.current_term, n.log.last_index, n.log.commit_index) for n in nodes))
+    return drv, viol, obs
+
+
+def _live_subtree(job):
+    """All executions whose FIRST deviation is ``prefix`` (prefix ends with a non-zero choice),
+    with up to ``bound`` deviations in total."""
+    k, prefix, shapes, bound = job
+    st = {"exec": 0, "trans": 0, "outcomes": set(), "viol": {}, "nontriv": 0, "kinds": {}, "sample": None}
+    stack = [(prefix, shapes, 1 if prefix else 0)]
+    while stack:
+        pre, shp, devs = stack.pop()
+        ch = Chooser(pre, shp)
+        drv, viol, obs = live_run(ch, k)
+        st["exec"] += 1
+        st["trans"] += len(ch.choices)
+        st["outcomes"].add(digest(obs))
+        st["kinds"][drv.outcome] = st["kinds"].get(drv.outcome, 0) + 1
+        if drv.outcome == "established" and devs > 0:
+            st["nontriv"] += 1
+        for fp, desc in viol:
+            if fp not in st["viol"]:
+                st["viol"][fp] = (desc, {"driver": "live", "k": k, "choices": list(ch.choices)})
+        if st["sample"] is None and devs == bound:
+            st["sample"] = {"k": k, "deviations": [(i, c, ch.points[i][1]) for i, c in enumerate(ch.choices) if c],
+                            "outcome": drv.outcome, "final": drv.final}
+        if devs >= bound:
+            continue
+        new = []
+        for i in range(len(pre), len(ch.choices)):
+            pn, _tag = ch.points[i]
+            for alt in range(1, pn):
+                new.append((ch.choices[:i] + [alt], ch.points[: i + 1], devs + 1))
+        stack.extend(reversed(new))
+    return st
+
+
+def run_live(run, k, bound, seed):
+    t0 = time.time()
+    d = run.driver(f"live-k{k}", dict(LIVE, nodes=3, commands=k, deviation_bound=bound,
+                                       note="choice 0 = smallest delay / shortest timeout / zero gap"))
+    ch0 = Chooser()
+    drv, viol, obs = live_run(ch0, k)
+    shapes = list(ch0.points)
+    jobs = [(k, list(ch0.choices[:i]) + [alt], shapes[: i + 1], bound)
+            for i, (pn, _t) in enumerate(shapes) for alt in range(1, pn)] if bound >= 1 else []
+    results = [{"exec": 1, "trans": len(ch0.choices), "outcomes": {digest(obs)},
+                "viol": {fp: (desc, {"driver": "live", "k": k, "choices": []}) for fp, desc in viol},
+                "nontriv": 0, "kinds": {drv.outcome: 1}, "sample": None}]
+    results += pmap(_live_subtree, rotate(jobs, seed), chunksize=2)
+    outcomes, kinds = set(), {}
+    for st in results:
+        d.executions += st["exec"]
+        d.transitions += st["trans"]
+        d.nontrivial += st["nontriv"]
+        outcomes |= st["outcomes"]
+        for kk, vv in st["kinds"].items():
+            kinds[kk] = kinds.get(kk, 0) + vv
+        for fp, (desc, rep) in st["viol"].items():
+            run.violation(fp, desc, rep)
+        if st["sample"] and len(d.samples) < 2:
+            d.samples.append(st["sample"])
+    d.states = d.outcomes = len(outcomes)
+    d.extra = {"choice_points_default_run": len(shapes), "premise_outcomes": kinds,
+               "deviation_bound_completed": bound}
+    d.wall_s = time.time() - t0
+
+
+# ---------------------------------------------------------------------------
+# tiers
+# ---------------------------------------------------------------------------
+# (driver name, world, overrides, max_states)
+QUICK_WORLDS = [
+    ("elect", "elect", dict(timeouts=2), 400_000),
+    ("repl", "repl", None, 400_000),
+    ("change-t1", "change", dict(timeouts=1, max_term=2, hbs=1), 400_000),
+    ("change-t2", "change", dict(timeouts=2, max_term=3, hbs=0, max_msgs=4), 400_000),
+]
+THOROUGH_WORLDS = [
+    ("elect", "elect", None, 1_500_000),
+    ("repl", "repl", None, 1_500_000),
+    ("change-t1", "change", dict(timeouts=1, max_term=2, hbs=2), 1_500_000),
+    ("change-t2", "change", dict(timeouts=2, max_term=3, hbs=0, max_msgs=4), 1_500_000),
+]
+
+
+def main(tier, seed, only=None):
+    run = Run(PID, tier, seed, "model_checking",
+              rule=("bfs-* drivers: states = distinct canonical states (node-permutation symmetry reduced) of three "
+                    "real RaftNode objects + in-flight bag + live timers + ghosts, transitions = real "
+                    "Event.invoke()/submit() calls, executions = one shortest real trace per distinct state; "
+                    "non-trivial = distinct states in which at least two nodes have started an election, or two "
+                    "logs diverge, or two terms have had a leader, or a message overtook an older one of its type on the "
+                    "same link, or a message was lost / a node crashed; "
+                    "outcomes = distinct (leader-per-term, committed commands, applied sequences, resolved futures). "
+                    "live-* drivers: executions = complete runs of the real Simulation+Network, transitions = "
+                    "owned choice points answered, non-trivial = runs with >= 1 deviation from the default "
+                    "delays/timeouts in which the premise (single established leader) held, states = distinct "
+                    "end-to-end observations"),
+              assumptions=["E1 abstracts time: any live timer may fire and any in-flight message may be delivered "
+                           "at any moment (safety must not depend on timing); the clock object stays at 0",
+                           "a partition is modelled by losing the messages it would block; a crash is the "
+                           "`_crashed` flag CrashNode sets (Event.invoke drops events), restart clears it and "
+                           "calls start() again",
+                           "messages are not duplicated (the statement names delay, reordering, loss)",
+                           "cluster size 3 (5 only in the thorough election world)",
+                           "E2 horizon: 4 heartbeat intervals after the last submit"])
+    worlds = QUICK_WORLDS if tier == "quick" else THOROUGH_WORLDS
+    budget_s = 45 if tier == "quick" else 170
+    for dname, wname, ov, cap in rotate(worlds, seed):
+        if only and "bfs-" + dname not in only and dname not in only:
+            continue
+        run_world(run, wname, ov, cap, budget_s, dname=dname)
+    lives = [(2, 2)] if tier == "quick" else [(1, 2), (2, 2), (3, 2)]
+    for k, bound in lives:
+        if only and f"live-k{k}" not in only:
+            continue
+        run_live(run, k, bound, seed)
+    return run.finish()
+
+
+def replay(data):
+    rep = data["replay"]
+    print(f"fingerprint: {data.get('fingerprint')}")
+    if rep.get("driver") == "live":
+        tr = []
+        ch = Chooser(rep["choices"])
+        drv, viol, _obs = live_run(ch, rep["k"], trace=tr)
+        devs = [(i, c, ch.points[i][1]) for i, c in enumerate(ch.choices) if c]
+        print(f"live run k={rep['k']}; deviations from the default answers (point, choice, kind): {devs}")
+        print("\n".join(tr))
+        for rec in drv.log:
+            print("   client:", rec)
+        for fp, desc in viol:
+            print(f"  !! {fp}: {desc}")
+        return 1 if any(fp == data.get("fingerprint") for fp, _d in viol) or (viol and not data.get("fingerprint")) else 0
+    mk = MakeWorld(rep["world"], rep.get("overrides") or None)
+    w0 = mk()
+    print(f"world {rep['world']} overrides={rep.get('overrides')}; scripted prefix ({len(mk.prefix_labels)} moves):")
+    for lab in mk.prefix_labels:
+        print("     ", _short(lab))
+    print("  start:", w0.describe())
+    w = mk()
+    hit = []
+    for i, lab in enumerate(rep["labels"]):
+        lab = _bfs._thaw(lab)
+        w.apply(lab)
+        print(f"  step {i + 1}: {_short(lab)}\n          -> {w.describe()}")
+        for fp, d in w.check():
+            print(f"    !! {fp}: {d}")
+            hit.append(fp)
+    want = data.get("fingerprint")
+    return 1 if (want in hit if want else bool(hit)) else 0
